@@ -1,6 +1,6 @@
 (* Properties/C04.v — JSON/YAML/TOML outputs are isomorphic to the tree (structure part). *)
 From Coq Require Import List Ascii String.
-From GT Require Import Base.GoStr Tree.Tree Out.Formatted Api.Simple Proofs.Formatted Proofs.NoPanic.
+From GT Require Import Base.GoStr Tree.Tree Out.Formatted Spec.JsonParse Api.Simple Proofs.Formatted Proofs.NoPanic Proofs.JsonRoundTrip.
 Import ListNotations.
 
 (* the child-by-child copy into json/yaml/toml structs (setChild + positional getChild)
@@ -14,6 +14,30 @@ Print Assumptions C04_structure.
 Theorem C04_stream : forall e gs, exists cs, enc_chunks e gs = Ok cs.
 Proof. exact enc_chunks_ok. Qed.
 Print Assumptions C04_stream.
+
+(* JSON: the output parses under an RFC 8259 parser for this record shape (Spec/JsonParse.v:
+   all escapes incl. \\uXXXX, null and [] both meaning "no children") back into exactly the
+   forest, one value per line in input order, for all names that are valid UTF-8 *)
+Theorem C04_json_roundtrip : forall fs, Forall names_utf8 fs ->
+  parse_lines (List.concat (map json_line fs)) = Some fs.
+Proof. exact json_lines_roundtrip. Qed.
+Print Assumptions C04_json_roundtrip.
+
+Theorem C04_json_string_roundtrip : forall n rest, utf8_valid n = true ->
+  parse_string (json_str n ++ rest) = Some (n, rest).
+Proof. exact json_string_roundtrip. Qed.
+Print Assumptions C04_json_string_roundtrip.
+
+(* YAML / TOML: the encoders (yaml.v3, go-toml) are opaque.  Under the hypothesis that a decoder
+   inverts the encoder on these records, the stream handed to the encoder decodes to the forest *)
+Section ThirdPartyEncoders.
+  Variable enc : fnode -> str.
+  Variable dec : str -> option fnode.
+  Hypothesis dec_enc : forall f, dec (enc f) = Some f.
+  Theorem C04_yaml_toml_partial : forall t, exists f, formatted t = Ok f /\ dec (enc f) = Some (fnode_of t).
+  Proof. intros t. exists (fnode_of t). split; [apply formatted_ok|apply dec_enc]. Qed.
+End ThirdPartyEncoders.
+Print Assumptions C04_yaml_toml_partial.
 
 Definition s (x : string) : str := list_ascii_of_string x.
 Example C04_nonvacuous :
